@@ -503,4 +503,24 @@ theorem ctz_eq (n w : Nat) : GoM.ctz n w = Bits.ctz n w := by
 theorem tz32_natCast (w : Nat) : GoM.tz32 (w : Int) = ((Bits.tz32 w : Nat) : Int) := by
   simp [GoM.tz32, Bits.tz32, ctz_eq]
 
+
+/-! ### what a regenerated method must return for a result of the word model -/
+
+/-- what a regenerated void method on the word slice must return for a model result -/
+def expW (r : Res WMat) : Res (List Int) := r.map (fun m' => words m'.words)
+
+/-- … a method with an `error` result: `illegalArg` is the Go error (state unchanged), other faults are panics -/
+def expEW (orig : List Nat) : Res WMat → Res (Bool × List Int)
+  | .ok m' => .ok (false, words m'.words)
+  | .error .illegalArg => .ok (true, words orig)
+  | .error e => .error e
+
+theorem expEW_error (o : List Nat) {e : Fault} (h : NotArg e) : expEW o (.error e) = .error e := by
+  cases e <;> first | rfl | exact absurd rfl h
+
+/-- resolve the argument checks: every `if` whose condition `omega` decides from the context -/
+macro "resolve_ifs" : tactic =>
+  `(tactic| simp (disch := omega) only [Bool.or_eq_true, Bool.and_eq_true, decide_eq_true_eq, bne_iff_ne, beq_iff_eq, ne_eq,
+      if_pos, if_neg])
+
 end Gzx.GoM
